@@ -34,7 +34,16 @@ def build_case(u):
     n = u.below(5)
     names, vals = [], []
     for i in range(n):
-        names.append(base + tuple(gen.g_arc(u) for _ in range(u.range(1, 3))) if u.below(4) else gen.g_oid(u, 2, 8))
+        k = u.below(8)
+        if k == 0:
+            names.append(base)  # the walk root itself
+        elif k == 1:
+            # a strict prefix of what an earlier (valid) reply of this walk returned: base.(j).5.5 -> base.(j) / base.(j).5
+            names.append(base + ((1 + u.below(2),) if u.bool() else (1 + u.below(2), 5)))
+        elif k <= 5:
+            names.append(base + tuple(gen.g_arc(u) for _ in range(u.range(1, 3))))
+        else:
+            names.append(gen.g_oid(u, 2, 8))
         vals.append(gen.g_any_value(u))
     mode = u.choice(["outer", "inner", "inner", "scoped", "special", "salt", "random", "valid", "report"])
     c = {"cfg": cfg, "op": op, "driver": driver, "base": base, "mode": mode}
@@ -129,7 +138,7 @@ def execute(G, c):
         state["n"] += 1
         if state["n"] <= c["nfirst"] and op in ("getnext", "getbulk"):
             # a valid in-subtree reply first
-            nm = c["base"] + (state["n"],)
+            nm = c["base"] + (state["n"], 5, 5)  # deeper than the names the hostile reply may carry
             return [ag.build_reply(cfg, req, [rb.varbind(rb.enc_oid(nm), rb.enc_int(state["n"]))])]
         if state["sent"] is None:
             m, notes = hostile_reply(c, req)
